@@ -224,6 +224,128 @@ Proof.
   - intros v _. apply (leb_len 10 v). lia.
 Qed.
 
+(* ---------- the other bincode configurations ---------- *)
+Lemma loc_be k : loc (p_be k).
+Proof.
+  induction k as [|k IH]; cbn [p_be]; [apply loc_ret|].
+  apply loc_bind; [apply loc_u8|]. intros hi. apply loc_bind; [exact IH|]. intros lo. apply loc_ret.
+Qed.
+
+Lemma be_rt k : forall v r, v < 256 ^ N.of_nat k -> p_be k (be_bytes k v ++ r) = Some (v, r).
+Proof.
+  induction k as [|k IH]; intros v r Hv.
+  - cbn in *. assert (v = 0) by lia. subst. reflexivity.
+  - cbn [be_bytes p_be app]. unfold pbind at 1. cbn [p_u8].
+    assert (P : 0 < 256 ^ N.of_nat k) by (apply N.neq_0_lt_0, N.pow_nonzero; lia).
+    assert (Hm : v mod 256 ^ N.of_nat k < 256 ^ N.of_nat k) by (apply N.mod_lt; lia).
+    unfold pbind at 1. rewrite (IH _ r Hm). unfold pret. f_equal. f_equal.
+    pose proof (N.div_mod v (256 ^ N.of_nat k) ltac:(lia)). lia.
+Qed.
+
+Lemma be_len k v : len (be_bytes k v) = N.of_nat k.
+Proof. revert v. induction k as [|k IH]; intros v; [reflexivity|]. cbn [be_bytes]. unfold len in *. cbn [length]. rewrite Nat2N.inj_succ, IH. lia. Qed.
+
+Lemma be_bytes_ok k : forall v, v < 256 ^ N.of_nat k -> Forall (fun x => x < 256) (be_bytes k v).
+Proof.
+  induction k as [|k IH]; intros v Hv; cbn [be_bytes]; constructor.
+  - rewrite Nat2N.inj_succ, N.pow_succ_r' in Hv. apply N.div_lt_upper_bound; [apply N.pow_nonzero; lia|lia].
+  - apply IH. apply N.mod_lt. apply N.pow_nonzero. lia.
+Qed.
+
+Lemma loc_b_varint_be w : loc (b_p_varint_be w).
+Proof.
+  unfold b_p_varint_be. apply loc_bind; [apply loc_u8|]. intros t.
+  repeat (apply loc_if); try apply loc_ret; try apply loc_be; try apply loc_fail.
+Qed.
+
+Lemma b_varint_be_rt (w : N) v r :
+  (w = 2 \/ w = 4 \/ w = 8) -> v < 256 ^ w -> b_p_varint_be w (b_varint_be v ++ r) = Some (v, r).
+Proof.
+  intros Hw Hv. unfold b_varint_be, b_p_varint_be.
+  destruct (v <=? 250) eqn:E1.
+  { cbn [app]. unfold pbind. cbn [p_u8]. rewrite E1. reflexivity. }
+  destruct (v <? 65536) eqn:E2.
+  { cbn [app]. unfold pbind at 1. cbn [p_u8]. change (251 <=? 250) with false. change (251 =? 251) with true. cbv iota.
+    apply (be_rt 2). change (256 ^ N.of_nat 2) with 65536. lia. }
+  destruct (v <? 4294967296) eqn:E3.
+  { cbn [app]. unfold pbind at 1. cbn [p_u8]. change (252 <=? 250) with false. change (252 =? 251) with false.
+    change (252 =? 252) with true. cbv iota.
+    assert (4 <=? w = true) as ->.
+    { destruct Hw as [->|[->| ->]]; [|reflexivity|reflexivity]. change (256 ^ 2) with 65536 in Hv. lia. }
+    apply (be_rt 4). change (256 ^ N.of_nat 4) with 4294967296. lia. }
+  cbn [app]. unfold pbind at 1. cbn [p_u8]. change (253 <=? 250) with false. change (253 =? 251) with false.
+  change (253 =? 252) with false. change (253 =? 253) with true. cbv iota.
+  assert (8 <=? w = true) as ->.
+  { destruct Hw as [->|[->| ->]]; [| |reflexivity].
+    - change (256 ^ 2) with 65536 in Hv. lia.
+    - change (256 ^ 4) with 4294967296 in Hv. lia. }
+  apply (be_rt 8). destruct Hw as [->|[->| ->]].
+  - change (256 ^ 2) with 65536 in Hv. change (256 ^ N.of_nat 8) with 18446744073709551616. lia.
+  - change (256 ^ 4) with 4294967296 in Hv. change (256 ^ N.of_nat 8) with 18446744073709551616. lia.
+  - exact Hv.
+Qed.
+
+Lemma b_varint_be_shape v : v < B64 ->
+  Forall (fun x => x < 256) (b_varint_be v)
+  /\ 1 <= len (b_varint_be v) <= 9 /\ (v < B16 -> len (b_varint_be v) <= 3) /\ (v < B32 -> len (b_varint_be v) <= 5).
+Proof.
+  unfold b_varint_be, B16, B32, B64. intros Hv.
+  destruct (v <=? 250) eqn:E1.
+  { split; [constructor; [lia|constructor]|]. unfold len; cbn [length]. lia. }
+  destruct (v <? 65536) eqn:E2.
+  { split; [constructor; [lia|apply (be_bytes_ok 2); change (256 ^ N.of_nat 2) with 65536; lia]|].
+    unfold len; cbn [length be_bytes]. lia. }
+  destruct (v <? 4294967296) eqn:E3.
+  { split; [constructor; [lia|apply (be_bytes_ok 4); change (256 ^ N.of_nat 4) with 4294967296; lia]|].
+    unfold len; cbn [length be_bytes]. lia. }
+  split; [constructor; [lia|apply (be_bytes_ok 8); change (256 ^ N.of_nat 8) with 18446744073709551616; lia]|].
+  unfold len; cbn [length be_bytes]. lia.
+Qed.
+
+Lemma bincode_be_rt : fmt_rt bincode_be_fmt in16 in32 in64.
+Proof.
+  constructor; cbn [bincode_be_fmt f_u16 f_p_u16 f_u32 f_p_u32 f_u64 f_p_u64].
+  - intros v r H. apply b_varint_be_rt; [auto|exact H].
+  - intros v r H. apply b_varint_be_rt; [auto|exact H].
+  - intros v r H. apply b_varint_be_rt; [auto|exact H].
+  - apply loc_b_varint_be. - apply loc_b_varint_be. - apply loc_b_varint_be.
+Qed.
+Lemma bincode_be_by : fmt_by bincode_be_fmt.
+Proof.
+  constructor; cbn [bincode_be_fmt f_u16 f_p_u16 f_u32 f_p_u32 f_u64 f_p_u64]; intros v H;
+    (assert (H64 : v < B64) by (unfold B16, B32, B64 in *; lia));
+    destruct (b_varint_be_shape v H64) as (S1 & S2 & S3 & S4); auto;
+    try (specialize (S3 H)); try (specialize (S4 H)); lia.
+Qed.
+
+Lemma bincode_fixle_rt : fmt_rt bincode_fixle_fmt in16 in32 in64.
+Proof.
+  constructor; cbn [bincode_fixle_fmt f_u16 f_p_u16 f_u32 f_p_u32 f_u64 f_p_u64].
+  - intros v r H. apply (le_rt 2). exact H.
+  - intros v r H. apply (le_rt 4). exact H.
+  - intros v r H. apply (le_rt 8). exact H.
+  - apply loc_le. - apply loc_le. - apply loc_le.
+Qed.
+Lemma bincode_fixle_by : fmt_by bincode_fixle_fmt.
+Proof.
+  constructor; cbn [bincode_fixle_fmt f_u16 f_p_u16 f_u32 f_p_u32 f_u64 f_p_u64]; intros v H;
+    try apply le_bytes_ok; rewrite le_len; lia.
+Qed.
+
+Lemma bincode_fixbe_rt : fmt_rt bincode_fixbe_fmt in16 in32 in64.
+Proof.
+  constructor; cbn [bincode_fixbe_fmt f_u16 f_p_u16 f_u32 f_p_u32 f_u64 f_p_u64].
+  - intros v r H. apply (be_rt 2). exact H.
+  - intros v r H. apply (be_rt 4). exact H.
+  - intros v r H. apply (be_rt 8). exact H.
+  - apply loc_be. - apply loc_be. - apply loc_be.
+Qed.
+Lemma bincode_fixbe_by : fmt_by bincode_fixbe_fmt.
+Proof.
+  constructor; cbn [bincode_fixbe_fmt f_u16 f_p_u16 f_u32 f_p_u32 f_u64 f_p_u64]; intros v H;
+    try (apply be_bytes_ok; exact H); rewrite be_len; lia.
+Qed.
+
 (* ---------- values a Rust SId / Member / Header can hold ---------- *)
 Section Rt.
 Variable F : fmt.
